@@ -10,11 +10,20 @@ import (
 	"sort"
 	"strconv"
 	"strings"
+	"sync"
 
 	"github.com/nelhage/taktician/ai"
 	"github.com/nelhage/taktician/bitboard"
 	"github.com/nelhage/taktician/tak"
 )
+
+// engines shared by all sessions of the process (one per board size), serialised: MinimaxAI is not reentrant
+var evalEngines sync.Map
+
+type lockedAI struct {
+	mu sync.Mutex
+	ai *ai.MinimaxAI
+}
 
 func sortedU64(xs []uint64) string {
 	if len(xs) == 0 {
@@ -120,6 +129,21 @@ func init() {
 		b := atou(a[1])
 		x, y := bitboard.BitCoords(&c, b&-b) // lowest set bit (callers pass single bits); 0 panics -> "panic"
 		return fmt.Sprintf("tz=%d pop=%d xy=%d,%d", bitboard.TrailingZeros(b), bitboard.Popcount(b), x, y)
+	}
+	// evalmm: the exported method MinimaxAI.Evaluate on ONE engine per board size that is kept for the whole run (default
+	// configuration, transposition table on), so that whatever the engine remembers between calls meets positions of
+	// other games, other piece counts and other tie-break settings
+	opTable["evalmm"] = func(s *Session, a []string) string {
+		p := decPos(a[0])
+		key := "evalmm-engine:" + strconv.Itoa(p.Size())
+		e, _ := evalEngines.Load(key)
+		if e == nil {
+			e, _ = evalEngines.LoadOrStore(key, &lockedAI{ai: ai.NewMinimax(ai.MinimaxConfig{Size: p.Size(), Depth: 1})})
+		}
+		la := e.(*lockedAI)
+		la.mu.Lock()
+		defer la.mu.Unlock()
+		return strconv.FormatInt(la.ai.Evaluate(p), 10)
 	}
 	// the precise configuration exactly as users obtain it: MinimaxConfig.MakePrecise() on a default-flag configuration
 	opTable["mkprecise"] = func(s *Session, a []string) string {
